@@ -11,37 +11,115 @@ open Tabula.Xml Tabula.Render
 
 /-! ### the walk with style names is the walk of `Model/Odt.lean` with more columns -/
 
-def eraseW (w : WalkX) : Walk := { inBody := w.inBody, acc := w.acc.map (·.elem) }
+def eraseW (w : WalkX) : Walk := { inBody := w.inBody, done := w.done, acc := w.acc.map (·.elem) }
+
+/-- the walk with style names, and the decoder's giving up inside it, are those of
+`Model/Odt.lean` once the style names and column counts are forgotten -/
+theorem walkNodeX_erase_both (defs : List StyleDef) (n : Node) :
+    (∀ w : WalkX, eraseW (walkNodeX defs n w) = walkNode defs n (eraseW w)) ∧
+    (∀ (ctx : Ctx) (w : WalkX), (scanNodeX defs ctx n w).map eraseW = scanNode defs ctx n (eraseW w)) := by
+  induction n using Node.rec (motive_2 := fun l =>
+      (∀ w : WalkX, eraseW (walkListX defs l w) = walkList defs l (eraseW w)) ∧
+      (∀ (ctx : Ctx) (w : WalkX), (scanListX defs ctx l w).map eraseW = scanList defs ctx l (eraseW w))) with
+  | elem tag attrs kids ih =>
+    obtain ⟨ihw, ihs⟩ := ih
+    constructor
+    · intro w
+      simp only [walkNodeX, walkNode]
+      have hd : (eraseW w).done = w.done := rfl
+      have hb : (eraseW w).inBody = w.inBody := rfl
+      rw [hd, hb]
+      split
+      · rfl
+      · split
+        · have := ihw { w with inBody := true }
+          simp only [eraseW] at this ⊢
+          rw [← this]
+        · split
+          · exact ihw w
+          · split
+            · have h := ihs (.inline 0) w
+              cases hx : scanListX defs (.inline 0) kids w with
+              | none => rw [hx] at h; rw [← h]; simp [eraseW]
+              | some w' => rw [hx] at h; rw [← h]; simp [eraseW]
+            · split
+              · have h := ihs (.inline 0) w
+                cases hx : scanListX defs (.inline 0) kids w with
+                | none => rw [hx] at h; rw [← h]; simp [eraseW]
+                | some w' => rw [hx] at h; rw [← h]; simp [eraseW]
+              · split
+                · have h := ihs .list { w with listStyle := listStyleAfter attrs w.listStyle }
+                  have he : eraseW { w with listStyle := listStyleAfter attrs w.listStyle } = eraseW w := rfl
+                  rw [he] at h
+                  cases hx : scanListX defs .list kids { w with listStyle := listStyleAfter attrs w.listStyle } with
+                  | none => rw [hx] at h; rw [← h]; simp [eraseW, List.map_map, Function.comp_def]
+                  | some w' => rw [hx] at h; rw [← h]; simp [eraseW]
+                · split
+                  · have h := ihs .table w
+                    cases hx : scanListX defs .table kids w with
+                    | none => rw [hx] at h; rw [← h]; simp [eraseW]
+                    | some w' => rw [hx] at h; rw [← h]; simp [eraseW]
+                  · exact ihw w
+    · intro ctx w
+      simp only [scanNodeX, scanNode]
+      cases descend ctx (localName tag) with
+      | skip => rfl
+      | fail => simp only [Option.map_some]; rw [ihw w]
+      | into c => exact ihs c w
+  | text s => exact ⟨fun w => by simp [walkNodeX, walkNode], fun ctx w => by simp [scanNodeX, scanNode]⟩
+  | nil => exact ⟨fun w => by simp [walkListX, walkList], fun ctx w => by simp [scanListX, scanList]⟩
+  | cons n rest ihn ihr =>
+    obtain ⟨ihnw, ihns⟩ := ihn
+    obtain ⟨ihrw, ihrs⟩ := ihr
+    constructor
+    · intro w
+      simp only [walkListX, walkList]
+      rw [ihrw, ihnw]
+    · intro ctx w
+      simp only [scanListX, scanList]
+      have h := ihns ctx w
+      cases hx : scanNodeX defs ctx n w with
+      | none => rw [hx] at h; rw [← h]; exact ihrs ctx w
+      | some w' =>
+        rw [hx] at h; rw [← h]
+        cases ctx.isInline
+        · simp
+        · simp [ihrw]
 
 theorem walkNodeX_erase (defs : List StyleDef) (n : Node) :
-    ∀ w : WalkX, eraseW (walkNodeX defs n w) = walkNode defs n (eraseW w) := by
-  induction n using Node.rec (motive_2 := fun l => ∀ w : WalkX, eraseW (walkListX defs l w) = walkList defs l (eraseW w)) with
-  | elem tag attrs kids ih =>
+    ∀ w : WalkX, eraseW (walkNodeX defs n w) = walkNode defs n (eraseW w) :=
+  (walkNodeX_erase_both defs n).1
+
+theorem walkListX_erase (defs : List StyleDef) (l : List Node) :
+    ∀ w : WalkX, eraseW (walkListX defs l w) = walkList defs l (eraseW w) := by
+  induction l with
+  | nil => intro w; rfl
+  | cons n rest ih => intro w; simp only [walkListX, walkList]; rw [ih, walkNodeX_erase]
+
+theorem scanListX_erase (defs : List StyleDef) (ctx : Ctx) (l : List Node) :
+    ∀ w : WalkX, (scanListX defs ctx l w).map eraseW = scanList defs ctx l (eraseW w) := by
+  induction l with
+  | nil => intro w; rfl
+  | cons n rest ih =>
     intro w
-    simp only [walkNodeX, walkNode]
-    split
-    · have := ih { w with inBody := true }
-      simp only [eraseW] at this ⊢
-      rw [← this]
-    · have hb : (eraseW w).inBody = w.inBody := rfl
-      rw [hb]
-      split
-      · exact ih w
-      · split
-        · simp [eraseW]
-        · split
-          · simp [eraseW]
-          · split
-            · simp [eraseW, List.map_map, Function.comp_def]
-            · split
-              · simp [eraseW]
-              · exact ih w
-  | text s => intro w; simp [walkNodeX, walkNode]
-  | nil => simp [walkListX, walkList]
-  | cons n rest ihn ihr =>
-    rename_i w
-    simp only [walkListX, walkList]
-    rw [ihr, ihn]
+    simp only [scanListX, scanList]
+    have h := (walkNodeX_erase_both defs n).2 ctx w
+    cases hx : scanNodeX defs ctx n w with
+    | none => rw [hx] at h; rw [← h]; exact ih w
+    | some w' =>
+      rw [hx] at h; rw [← h]
+      cases ctx.isInline
+      · simp
+      · simp [walkListX_erase]
+
+/-- a body element that is decoded to its end leaves the walk with style names alone, too -/
+theorem scanX_none (defs : List StyleDef) (ctx : Ctx) (l : List Node) (w : WalkX)
+    (h : (residualList ctx l).isNone = true) : scanListX defs ctx l w = none := by
+  have h1 := scanListX_erase defs ctx l w
+  rw [scan_none defs ctx l (eraseW w) h] at h1
+  cases hx : scanListX defs ctx l w with
+  | none => rfl
+  | some w' => rw [hx] at h1; cases h1
 
 /-! ### plain text -/
 
